@@ -1,7 +1,84 @@
-//! C11: not built yet.
-use anyhow::{bail, Result};
-use serde_json::Value;
+//! C11: Mappings::extend_inner_class_names / contract_inner_class_names; ObjClassName split / join helpers.
+//!
+//! ops  {"op":"extend"|"contract","M":tree,"t":i(1-based)}   -> {ok,v}
+//!      {"op":"extcon","M":tree,"t":i}                        -> contract(extend(M)) ; refusal of either = not ok
+//!      {"op":"split","n":s}                                  -> [] | [parent, inner]   (+ get_inner_class_name / _parent agree)
+//!      {"op":"join","p":s,"i":s}                             -> {"joined":s,"split":[]|[p,i]}
+use anyhow::{bail, Context, Result};
+use rand::rngs::StdRng;
+use rand::{Rng, SeedableRng};
+use serde_json::{json, Value};
+use duke::tree::class::ObjClassName;
+use quill::tree::mappings::Mappings;
+use crate::gen_quill::*;
+use crate::proj_quill::*;
+use super::res_tree;
 
-pub fn exec(_v: &Value) -> Result<Value> { bail!("C11: driver not built") }
+fn run<const N: usize>(v: &Value) -> Result<Value> {
+	let m: Mappings<N, Ns> = json_to_tree(&v["M"])?;
+	let t = v["t"].as_u64().context("t")? as usize;
+	let ns = v["M"]["ns"][t - 1].as_str().context("ns name")?.to_owned();
+	Ok(match v["op"].as_str() {
+		Some("extend") => res_tree(m.extend_inner_class_names(&ns)),
+		Some("contract") => res_tree(m.contract_inner_class_names(&ns)),
+		Some("extcon") => res_tree(m.extend_inner_class_names(&ns).and_then(|e| e.contract_inner_class_names(&ns))),
+		o => bail!("op {o:?}"),
+	})
+}
 
-pub fn gen(_seed: u64, _n: usize) -> Result<Vec<Value>> { bail!("C11: driver not built") }
+fn split_json(n: &ObjClassName) -> Result<Value> {
+	let s = n.split_inner_class_parent_and_name();
+	let a = n.get_inner_class_parent();
+	let b = n.get_inner_class_name();
+	// the three accessors are views of the same split; disagreement is reported as a distinct value
+	match (s, a, b) {
+		(None, None, None) => Ok(json!([])),
+		(Some((p, i)), Some(p2), Some(i2)) if p == p2 && i == i2 => Ok(json!([p.to_string(), i.to_string()])),
+		_ => Ok(json!(["<accessors disagree>"])),
+	}
+}
+
+pub fn exec(v: &Value) -> Result<Value> {
+	match v["op"].as_str().context("op")? {
+		"split" => split_json(&ObjClassName::try_from(js(v["n"].as_str().context("n")?))?),
+		"join" => {
+			let p = ObjClassName::try_from(js(v["p"].as_str().context("p")?))?;
+			let i = ObjClassName::try_from(js(v["i"].as_str().context("i")?))?;
+			let j = ObjClassName::from_inner_class(p, &i);
+			Ok(json!({"joined": j.to_string(), "split": split_json(&j)?}))
+		},
+		_ => match v["M"]["ns"].as_array().map(|a| a.len()) {
+			Some(2) => run::<2>(v), Some(3) => run::<3>(v), Some(4) => run::<4>(v),
+			n => bail!("unsupported N {n:?}"),
+		},
+	}
+}
+
+pub fn gen(seed: u64, n: usize) -> Result<Vec<Value>> {
+	let mut r = StdRng::seed_from_u64(seed ^ 0xC11);
+	let mut out = vec![];
+	while out.len() < n {
+		let nn = *pick(&mut r, &[2usize, 3, 4]);
+		let cfg = TreeCfg { n: nn, classes: r.gen_range(0..16), p_missing: *pick(&mut r, &[0.0, 0.0, 0.1, 0.3]), unicode: r.gen_bool(0.3), ..TreeCfg::default() };
+		let mut m = gen_tree(&mut r, &cfg);
+		let t = r.gen_range(2..=nn);
+		// target names: simple names (the precondition of the inverse law) most of the time
+		let simple = r.gen_bool(0.7);
+		if let Some(Value::Object(k)) = m.get_mut("kids") {
+			for (_, c) in k.iter_mut() {
+				let cur = c["names"][t - 1].as_str().unwrap_or("").to_owned();
+				if cur.is_empty() { continue; }
+				let base = cur.rsplit('/').next().unwrap_or("x").replace('$', "_");
+				c["names"][t - 1] = if simple || r.gen_bool(0.5) { json!(if r.gen_bool(0.3) { format!("pk/{base}") } else { base }) } else { json!(format!("Out{}${}", r.gen_range(0..3), base)) };
+			}
+		}
+		let op = *pick(&mut r, &["extend", "extend", "contract", "extcon"]);
+		out.push(json!({"op": op, "M": m, "t": t, "simple": simple}));
+		if r.gen_bool(0.3) {
+			let nm = format!("{}{}{}", pick(&mut r, &["", "a", "p/q", "p/"]), pick(&mut r, &["", "$", "$$", "A$B", "x"]), pick(&mut r, &["", "$1", "/c", "$In$In2", "\u{e9}"]));
+			if let Ok(_) = ObjClassName::try_from(js(&nm)) { out.push(json!({"op": "split", "n": nm})); }
+		}
+	}
+	out.truncate(n);
+	Ok(out)
+}
